@@ -377,4 +377,249 @@ theorem Reach.eof {last : Kind} {ts : List Tok} (h : Reach [] last ts) : ts = []
   | objOpen _ _ _ _ => cases hst
   | objComma _ _ _ _ _ _ => cases hst
 
+/-! ### bytes and tokens -/
+
+theorem RFC.LexesTo.ws_right {Num Str : Bytes → Prop} {x : Bytes} {ts : List Tok} (h : LexesTo Num Str x ts)
+    {w : Bytes} (hw : AllWs w) : LexesTo Num Str (x ++ w) ts := by
+  induction h with
+  | nil w0 hw0 => exact LexesTo.nil _ (hw0.append hw)
+  | cons w0 b0 rest0 t0 ts0 hw0 hs0 _ ih =>
+    have := LexesTo.cons w0 b0 (rest0 ++ w) t0 ts0 hw0 hs0 ih
+    simpa using this
+
+theorem RFC.LexesTo.snoc {Num Str : Bytes → Prop} {x : Bytes} {ts : List Tok} (h : LexesTo Num Str x ts)
+    {w b w' : Bytes} {t : Tok} (hw : AllWs w) (hs : Spells Num Str t b) (hw' : AllWs w') :
+    LexesTo Num Str (x ++ (w ++ (b ++ w'))) (ts ++ [t]) := by
+  induction h with
+  | nil w0 hw0 =>
+    have := LexesTo.cons (w0 ++ w) b w' t [] (hw0.append hw) hs (LexesTo.nil w' hw')
+    simpa using this
+  | cons w0 b0 rest0 t0 ts0 hw0 hs0 _ ih =>
+    have := LexesTo.cons w0 b0 (rest0 ++ (w ++ (b ++ w'))) t0 (ts0 ++ [t]) hw0 hs0 ih
+    simpa using this
+
+/-! ### Decoder.Read -/
+
+theorem tokOf_kind {tok : Token} {gt : Tok} (h : tokOf tok = some gt) :
+    (tok.kind = .null ∧ gt = .null) ∨ (tok.kind = .bool ∧ (gt = .true_ ∨ gt = .false_)) ∨
+    (tok.kind = .number ∧ gt = .number tok.raw) ∨ (tok.kind = .string ∧ gt = .string tok.raw) ∨
+    (tok.kind = .objOpen ∧ gt = .lbrace) ∨ (tok.kind = .objClose ∧ gt = .rbrace) ∨
+    (tok.kind = .arrOpen ∧ gt = .lbrack) ∨ (tok.kind = .arrClose ∧ gt = .rbrack) ∨
+    (tok.kind = .comma ∧ gt = .comma) := by
+  unfold tokOf at h
+  cases hk : tok.kind <;> simp [hk] at h <;> subst h <;> simp
+
+/-- the sequencing check, for every token kind but String and EOF: the automaton moves to a
+reachable state whose token prefix is extended by the token -/
+theorem checkSeq_reach {st st' : List Open} {last : Kind} {ts : List Tok} (h : Reach st last ts)
+    {tok : Token} {gt : Tok} (hgt : tokOf tok = some gt)
+    (hc : checkSeq last st tok.kind = some st') (hns : tok.kind ≠ .string) :
+    Reach st' tok.kind (ts ++ [gt]) := by
+  rcases tokOf_kind hgt with ⟨hk, rfl⟩ | ⟨hk, hg⟩ | ⟨hk, rfl⟩ | ⟨hk, rfl⟩ | ⟨hk, rfl⟩ | ⟨hk, rfl⟩ | ⟨hk, rfl⟩ |
+      ⟨hk, rfl⟩ | ⟨hk, rfl⟩
+  · rw [hk] at hc ⊢; simp only [checkSeq] at hc
+    split at hc
+    next hv => cases hc; exact h.scalar hv _ rfl _ Value.null
+    next => cases hc
+  · rw [hk] at hc ⊢; simp only [checkSeq] at hc
+    split at hc
+    next hv =>
+      cases hc
+      rcases hg with rfl | rfl
+      · exact h.scalar hv _ rfl _ Value.true_
+      · exact h.scalar hv _ rfl _ Value.false_
+    next => cases hc
+  · rw [hk] at hc ⊢; simp only [checkSeq] at hc
+    split at hc
+    next hv => cases hc; exact h.scalar hv _ rfl _ (Value.number _)
+    next => cases hc
+  · exact absurd hk hns
+  · rw [hk] at hc ⊢; simp only [checkSeq] at hc
+    split at hc
+    next hv => cases hc; exact h.lbrace hv
+    next => cases hc
+  · rw [hk] at hc ⊢; simp only [checkSeq] at hc
+    split at hc
+    next rest =>
+      split at hc
+      · cases hc
+      next hl => cases hc; exact h.rbrace hl
+    next => cases hc
+  · rw [hk] at hc ⊢; simp only [checkSeq] at hc
+    split at hc
+    next hv => cases hc; exact h.lbrack hv
+    next => cases hc
+  · rw [hk] at hc ⊢; simp only [checkSeq] at hc
+    split at hc
+    next rest =>
+      split at hc
+      · cases hc
+      next hl => cases hc; exact h.rbrack hl
+    next => cases hc
+  · rw [hk] at hc ⊢; simp only [checkSeq] at hc
+    split at hc
+    · cases hc
+    next hne =>
+      split at hc
+      next hl =>
+        cases hc
+        exact h.comma hne (by simpa [Kind.isValueEnd, Bool.or_assoc] using hl)
+      next => cases hc
+
+variable {pn : Bytes → Option Nat} {Num : Bytes → Prop}
+
+/-- the result of one `Read` -/
+def ReadPost (Num : Bytes → Prop) (whole : Bytes) (tok : Token) (st' : DState) : Prop :=
+  ∃ consumed' ts', whole = consumed' ++ st'.inp ∧ LexesTo Num StrAcc consumed' ts' ∧
+    ((tok.kind = .eof ∧ st'.inp = [] ∧ (ts' = [] ∨ Value ts')) ∨
+     (tok.kind ≠ .eof ∧ Reach st'.stack st'.lastKind ts'))
+
+theorem readG_sound (hpn : NumSound pn Num) : ∀ (fuel : Nat) (st st' : DState) (tok : Token)
+    (consumed : Bytes) (ts : List Tok),
+    readG pn fuel st = .ok (tok, st') → Reach st.stack st.lastKind ts → LexesTo Num StrAcc consumed ts →
+    ReadPost Num (consumed ++ st.inp) tok st' := by
+  intro fuel
+  induction fuel with
+  | zero => intro st st' tok consumed ts h; simp [readG] at h
+  | succ fuel ih =>
+    intro st st' tok consumed ts h hr hl
+    rw [readG] at h
+    split at h
+    · cases h
+    next tok0 rest hp =>
+    rcases parseNextG_sound hpn hp with ⟨hk, hws, rfl⟩ | ⟨w, b, w', gt, hinp, hw, hw', hgt, hsp, hk1, hk2, hk3⟩
+    · -- EOF
+      have hns : tok0.kind ≠ .string := by rw [hk]; simp
+      rw [if_neg hns, hk] at h
+      by_cases hst : st.stack = []
+      · have hc : checkSeq st.lastKind st.stack .eof = some [] := by simp [checkSeq, hst]
+        rw [hc] at h
+        simp only [reduceCtorEq, if_false, Except.ok.injEq, Prod.mk.injEq] at h
+        obtain ⟨rfl, rfl⟩ := h
+        refine ⟨consumed ++ st.inp, ts, by simp, hl.ws_right hws, Or.inl ⟨hk, rfl, ?_⟩⟩
+        rw [hst] at hr; exact hr.eof
+      · have hc : checkSeq st.lastKind st.stack .eof = none := by simp [checkSeq, hst]
+        rw [hc] at h
+        simp at h
+    · -- a token
+      have hl1 : LexesTo Num StrAcc (consumed ++ (w ++ (b ++ w'))) (ts ++ [gt]) := hl.snoc hw hsp hw'
+      have hwhole : consumed ++ st.inp = (consumed ++ (w ++ (b ++ w'))) ++ rest := by rw [hinp]; simp
+      split at h
+      next hstr =>
+        -- String
+        have hgt' : gt = .string tok0.raw := by
+          rcases tokOf_kind hgt with ⟨hk, _⟩ | ⟨hk, _⟩ | ⟨hk, _⟩ | ⟨_, hg⟩ | ⟨hk, _⟩ | ⟨hk, _⟩ | ⟨hk, _⟩ | ⟨hk, _⟩ |
+            ⟨hk, _⟩ <;> first | exact hg | (rw [hstr] at hk; cases hk)
+        subst hgt'
+        unfold readString at h
+        split at h
+        next hv =>
+          simp only [Except.ok.injEq, Prod.mk.injEq] at h
+          obtain ⟨rfl, rfl⟩ := h
+          exact ⟨_, _, hwhole, hl1, Or.inr ⟨hk1, hr.scalar hv .string rfl _ (Value.string _)⟩⟩
+        next hv =>
+          split at h
+          · cases h
+          next hlast =>
+            simp only [Decidable.not_not] at hlast
+            split at h
+            · cases h
+            next c t =>
+              split at h
+              · cases h
+              next hc =>
+                simp only [ne_eq, Decidable.not_not] at hc
+                subst hc
+                simp only [Except.ok.injEq, Prod.mk.injEq] at h
+                obtain ⟨rfl, rfl⟩ := h
+                obtain ⟨w2, ht, hw2⟩ := dropWs_split t
+                have hl2 := hl1.snoc (w := []) (b := [0x3a#8]) (w' := w2) AllWs.nil Spells.colon hw2
+                refine ⟨_, _, ?_, hl2, Or.inr ⟨by simp, ?_⟩⟩
+                · rw [hwhole]; simp only [List.append_assoc, List.nil_append, List.cons_append]
+                  rw [← ht]
+                · have := hr.name (by simpa using hv) hlast tok0.raw
+                  simpa using this
+      next hstr =>
+        split at h
+        · first | cases h | (split at h <;> cases h)
+        next stack' hc =>
+          have hreach := checkSeq_reach hr hgt hc hstr
+          split at h
+          next hcomma =>
+            -- skip the comma and read on
+            have := ih _ _ _ (consumed ++ (w ++ (b ++ w'))) (ts ++ [gt]) h (by simpa using hreach) hl1
+            unfold ReadPost at this ⊢
+            rw [hwhole]; exact this
+          next hcomma =>
+            simp only [Except.ok.injEq, Prod.mk.injEq] at h
+            obtain ⟨rfl, rfl⟩ := h
+            exact ⟨_, _, hwhole, hl1, Or.inr ⟨hk1, hreach⟩⟩
+
+/-- reading tokens until EOF: the whole input lexes to nothing or to exactly one value -/
+theorem readAllG_sound (hpn : NumSound pn Num) : ∀ (fuel : Nat) (st : DState) (toks : List Token)
+    (consumed : Bytes) (ts : List Tok),
+    readAllG pn fuel st = .ok toks → Reach st.stack st.lastKind ts → LexesTo Num StrAcc consumed ts →
+    ∃ ts', LexesTo Num StrAcc (consumed ++ st.inp) ts' ∧ (ts' = [] ∨ Value ts') := by
+  intro fuel
+  induction fuel with
+  | zero => intro st toks consumed ts h; simp [readAllG] at h
+  | succ fuel ih =>
+    intro st toks consumed ts h hr hl
+    rw [readAllG] at h
+    split at h
+    · cases h
+    next tok st' hread =>
+      obtain ⟨consumed', ts', hwhole, hl', hpost⟩ := readG_sound hpn _ _ _ _ _ _ hread hr hl
+      rcases hpost with ⟨_, hinp, hv⟩ | ⟨hk, hreach⟩
+      · rw [hwhole, hinp, List.append_nil]; exact ⟨ts', hl', hv⟩
+      · rw [if_neg hk] at h
+        split at h
+        next toks' hrec =>
+          rw [hwhole]; exact ih _ _ _ _ hrec hreach hl'
+        next => cases h
+
+/-- **Soundness of the token automaton**, for any number parser `pn` that accepts only `Num`:
+if a fresh `Decoder` reads `b` up to EOF without error then `b` is whitespace only (no token was
+read: the EOF check of `Read` looks at the open stack only) or `b` is a `JSON-text` of the RFC 8259
+grammar with `Num` numbers and the decoder's strings. -/
+theorem decodeAllG_sound (hpn : NumSound pn Num) (b : Bytes) (toks : List Token)
+    (h : decodeAllG pn b = .ok toks) : AllWs b ∨ JsonTextG Num StrAcc b := by
+  have := readAllG_sound hpn _ { inp := b } toks [] [] h (Reach.expect _ _ _ Outer.top)
+    (LexesTo.nil [] AllWs.nil)
+  obtain ⟨ts, hl, hv⟩ := this
+  simp only [List.nil_append] at hl
+  rcases hv with rfl | hv
+  · left
+    cases hl with
+    | nil _ hw => exact hw
+  · exact Or.inr ⟨ts, hl, hv⟩
+
+/-! ### from the decoder's lexical grammars to the RFC's -/
+
+theorem RFC.Spells.mono {Num Str Num' Str' : Bytes → Prop} (hn : ∀ p, Num p → Num' p) (hs : ∀ p, Str p → Str' p)
+    {t : Tok} {b : Bytes} (h : Spells Num Str t b) : Spells Num' Str' t b := by
+  cases h with
+  | number b hb => exact Spells.number b (hn b hb)
+  | string b hb => exact Spells.string b (hs b hb)
+  | null => exact Spells.null
+  | true_ => exact Spells.true_
+  | false_ => exact Spells.false_
+  | lbrace => exact Spells.lbrace
+  | rbrace => exact Spells.rbrace
+  | lbrack => exact Spells.lbrack
+  | rbrack => exact Spells.rbrack
+  | comma => exact Spells.comma
+  | colon => exact Spells.colon
+
+theorem RFC.LexesTo.mono {Num Str Num' Str' : Bytes → Prop} (hn : ∀ p, Num p → Num' p) (hs : ∀ p, Str p → Str' p)
+    {b : Bytes} {ts : List Tok} (h : LexesTo Num Str b ts) : LexesTo Num' Str' b ts := by
+  induction h with
+  | nil w hw => exact LexesTo.nil w hw
+  | cons w b rest t ts hw hsp _ ih => exact LexesTo.cons w b rest t ts hw (hsp.mono hn hs) ih
+
+theorem RFC.JsonTextG.mono {Num Str Num' Str' : Bytes → Prop} (hn : ∀ p, Num p → Num' p) (hs : ∀ p, Str p → Str' p)
+    {b : Bytes} (h : JsonTextG Num Str b) : JsonTextG Num' Str' b := by
+  obtain ⟨ts, hl, hv⟩ := h
+  exact ⟨ts, hl.mono hn hs, hv⟩
+
 end JsonLex
